@@ -32,7 +32,7 @@ COMPONENTS = {
 ASSUMPTIONS = ["bitwise comparison with the clean run (NaN == NaN)", "'empty' feature excluded", "CPU only"]
 PROBES = ["online_feed", "offline_vectorised", "offline_stepwise", "feature_single_step", "feature_all_steps",
           "path_dependent_feature", "listed_hedge", "maturity_no_trade", "bs_model", "ww_model", "module_output",
-          "fill_nan", "fill_rand", "fill_huge"]
+          "fill_nan", "fill_rand", "fill_huge", "grad_enabled_run"]
 FILLS = ["rand", "rand", "huge", "nan", "neg", "zero"]
 SOFT_FILLS = ("nan", "neg", "zero", "huge")
 
@@ -72,7 +72,8 @@ def generate(rng):
         fill = rng.choice(FILLS)
         if k in ("online", "offline"):
             h = rng.choice(hedgers)
-            op = {"op": k, "hedger": h["id"], "derivative": "d0", "hedge": hedge, "fill": fill, "seed": rng.seed31()}
+            op = {"op": k, "hedger": h["id"], "derivative": "d0", "hedge": hedge, "fill": fill, "seed": rng.seed31(),
+                  "grad": rng.chance(0.35)}
             if k == "online":
                 # the online feed needs the stepwise branch; state-independent hedgers get prev_hedge appended
                 op["force_stepwise"] = not is_state_dep_spec(h["inputs"])
@@ -161,11 +162,14 @@ def _execute(program, stats, hist):
                 stats.probe("listed_hedge")
             if any(isinstance(f, dict) and f["f"] == "module_output" for f in hspec["inputs"]):
                 stats.probe("module_output")
-            # ---- run A: clean
+            # ---- run A: clean (under the ambient grad mode of the op: training code runs compute_hedge with grad enabled)
+            gctx = torch.enable_grad if op.get("grad") else torch.no_grad
+            if op.get("grad"):
+                stats.probe("grad_enabled_run")
             rec.reset()
             try:
-                with torch.no_grad():
-                    hA = hedger.compute_hedge(d, hedge=hedge)
+                with gctx():
+                    hA = hedger.compute_hedge(d, hedge=hedge).detach()
             except Exception as e:
                 raise Violation(ID, "op_raised", "compute_hedge:%s" % type(e).__name__, {"error": repr(e), "features": hspec["inputs"]}, seq)
             logA = list(rec.log)
@@ -192,8 +196,8 @@ def _execute(program, stats, hist):
                     rec.reset()
                     rec.after = after
                     try:
-                        with torch.no_grad():
-                            return hedger.compute_hedge(d, hedge=hedge)
+                        with gctx():
+                            return hedger.compute_hedge(d, hedge=hedge).detach()
                     finally:
                         rec.after = None
 
@@ -237,8 +241,8 @@ def _execute(program, stats, hist):
                 def off_run(fill):
                     corrupt_future(prims, t_star, fill, gen)
                     rec.reset()
-                    with torch.no_grad():
-                        return hedger.compute_hedge(d, hedge=hedge)
+                    with gctx():
+                        return hedger.compute_hedge(d, hedge=hedge).detach()
 
                 try:
                     hB = off_run(op["fill"])
@@ -265,6 +269,7 @@ def _execute(program, stats, hist):
                     stats.probe("path_dependent_feature")
             sig.append((name, stepwise, tuple(feature_name(f) for f in hspec["inputs"]), mk))
             hist.add(op=name, hedger=op["hedger"], hedge=thash(hA), fill=op["fill"])
+            torch.set_grad_enabled(True)
         elif name == "feature":
             from pfhedge.features import get_feature
             f = get_feature(build_feature(op["feature"], world))
